@@ -15,6 +15,22 @@ All statements are about `PersimVerif.Approx` (the model of `PersLandscapeApprox
 linear ordered field `K` (so in particular at `ℚ`, which contains every finite float, and at `ℝ`).
 Nothing here is about floating point.  `landscape bars k t` (Model/PLBase) is the mathematical
 landscape: the `k`-th largest tent value at `t`, `0` beyond the number of bars.
+
+All theorems are at full strength (every diagram of every size, every `num_steps ≥ 2`, every
+covering grid, every depth and node); none is `_partial`:
+
+* `kth_lipschitz`, `tent_lipschitz`, `snap_error` — the three analytic ingredients;
+* `ramps_are_snapped_tents` — what the two ramp loops + sort + padding compute;
+* `approx_shape`, `computeLandscape_half_step`, `computeLandscape_exact`, `approx_half_step`,
+  `approx_half_step_default`, `approx_ok_inv`, `approx_errors`, `half_step_attained` — the property
+  for `PersLandscapeApprox`, its glue (degree selection, `+∞` rows, default grid, error paths) and
+  the tightness of the constant `1/2`;
+* `transformer_is_approx`, `transformer_flat_entry`, `fit_transform_eq_transform`;
+* `vectorize_samples_evalPL` (given the `np.interp` contract);
+* `death_vector_sorted`, `death_vector_finite_sorted`, `death_vector_higher_degree`.
+
+The upstream code has no C08 defect (no `fix:` commit touches this property), so there is no
+`old_…_counterexample` here.
 -/
 namespace PersimVerif.C08
 open PersimVerif.PL PersimVerif.Approx PersimVerif.ApproxLemmas List
